@@ -34,11 +34,13 @@ pub fn run_set(ctx: &Ctx, texts: &[String], debug: &[bool], objs: Vec<ObjectFile
 }
 
 pub fn run(ctx: &Ctx, replay: Option<&str>) {
+    // a replay input that carries a set re-runs just that set; otherwise (the check passes the
+    // operation name only) the whole area is re-run from the recorded seed
     if let Some(rp) = replay {
         if let Some((texts, debug)) = parse_set(rp) {
             if let Some(objs) = assemble_replay(&texts, &debug) { run_set(ctx, &texts, &debug, objs); }
+            return;
         }
-        return;
     }
     let mut r = Rng::new(ctx.seed).fork(26);
     for round in 0..ctx.n(240, 2500) {
